@@ -97,7 +97,6 @@ package stage
 //@   modifies nothing
 //@   on return assert new-version-starts-empty: err == nil && !(lastret(readLocalCompanion, 0) != nil && old(lastret(readLocalCompanion, 0).Hash) == file.Hash) ==> len(cmp.Parts) == 0 && cmp.Size == file.Size && cmp.Name == file.Name && cmp.Renamed == file.Renamed
 //@   on return assert same-version-keeps-record: err == nil && lastret(readLocalCompanion, 0) != nil && lastret(readLocalCompanion, 0).Hash == file.Hash ==> cmp == lastret(readLocalCompanion, 0)
-//@   before call (*Stage).fromCache assert delivery-record-reaches-back-to-the-part: called((*Stage).buildCache) && lastarg((*Stage).buildCache, 1) == when && when <= lastret(sts.Binned.GetFileTime, 0) && ncalls((*Stage).buildCache) == 1
 //@   before call readLocalCompanion assert reads-own-companion: arg0 == path
 
 //@ func writeCompanion trusted
@@ -154,6 +153,7 @@ package stage
 
 //@ func (*Stage).partReceived
 //@   modifies everything
+//@   before call (*Stage).fromCache assert delivery-record-reaches-back-to-the-part: called((*Stage).buildCache) && lastarg((*Stage).buildCache, 1) == when && ncalls((*Stage).buildCache) == 1
 //@   on return assert yes-needs-record-or-known-file: result ==> (called(companionPartExists) && lastret(companionPartExists, 0) && lastarg(companionPartExists, 1) == lastret(sts.Binned.GetSlice, 0) && lastarg(companionPartExists, 2) == lastret(sts.Binned.GetSlice, 1) && lastarg(companionPartExists, 0) == lastret(readLocalCompanion, 0) && cmp.Hash == final.hash && cmp.Renamed == final.renamed && cmp.Prev == final.prev) || (existing != nil && existing.state != stateFailed && existing.hash == final.hash && existing.renamed == final.renamed)
 //@   on return assert known-file-answers-yes: existing != nil && existing.state != stateFailed && existing.hash == final.hash && existing.renamed == final.renamed ==> result
 //@   before call readLocalCompanion assert reads-own-companion: arg0 == pathjoin(s.rootDir, lastret(sts.Binned.GetName, 0)) && exclusive(lock)
